@@ -77,7 +77,7 @@ def judge(ctx, g, prune, o, stopping):
             # or separated, so this is a violation unless it is an exact non-zero tie in a cyclic game
             cyclic_tie = len(exp) > len(fs) and all(a in exp for a in fs) and max(vals) != 0 \
                 and g.get("_meta", {}).get("family") in ("slow_cycle", "stopping")
-            if cyclic_tie and not acyclic(S):
+            if cyclic_tie and not acyclic(S, s):
                 ctx.count("cyclic_nonzero_tie_outside_quantifier")
                 continue
             ctx.violation("exact-optimal-set", inp, {"state": s, "final": fs, "expected": exp,
@@ -86,8 +86,8 @@ def judge(ctx, g, prune, o, stopping):
     return nontriv
 
 
-def acyclic(S):
-    """no cycle among the states reachable from 0 in the conditioned game except absorbing loops"""
+def acyclic(S, start=0):
+    """no cycle among the states reachable from `start` in the conditioned game except absorbing loops"""
     cond = S.cond_as_solved()
     color = {}
 
@@ -102,7 +102,7 @@ def acyclic(S):
                 return False
         color[u] = 2
         return True
-    return dfs(0)
+    return dfs(start)
 
 
 def check_case(ctx, g, model=None, stopping=True, limit=5.0):
@@ -146,10 +146,13 @@ def run(ctx, model=None):
     for kind in (PR, P1):
         for pat in gen.all_patterns(3 if ctx.quick() else 4):
             check_case(ctx, gen.dead_shape_game(rng, kind, pat, front=rng.choice([P1, P2])), model)
+    for k in range(12 if ctx.quick() else 200):
+        check_case(ctx, gen.tiny_reach_game(rng), model)
     N = 200 if ctx.quick() else 5000
     for k in range(N):
         r = k % 5
-        g = reward_tie_game(rng) if r == 0 else gen.slow_cycle_game(rng) if r == 1 else gen.stopping_game(rng, extra_finals=0.25)
+        g = reward_tie_game(rng) if r == 0 else gen.slow_cycle_game(rng) if r == 1 else \
+            gen.layered_tie_game(rng) if r == 2 else gen.stopping_game(rng, extra_finals=0.25)
         check_case(ctx, g, model)
         if ctx.time_left() < 0:
             return
